@@ -104,6 +104,13 @@ func c09Case(r *evid.Run, tier string, idx int, g *rng.R) {
 			}
 		}
 	}
+	for _, e := range d.Elements() {
+		if g.P(4) {
+			// explicit (redundant) declaration of the reserved xml prefix, among the other declarations
+			e.Decls = append(e.Decls, adoc.Decl{Prefix: "xml", URI: adoc.XMLNS})
+			rng.Shuffle(g, e.Decls)
+		}
+	}
 	d.NormalizeNS(g)
 	d.Finish()
 	shape := d.Shape()
